@@ -18,6 +18,7 @@ with `expand=False` only the outcome class (torch broadcasting: error unless one
 (`pairedBatch`).
 -/
 import QV.Model.States
+import QV.Model.PyFlag
 namespace QV
 
 variable {α : Type} [Add α] [Mul α] [Neg α] [Sub α] [Div α] [Zero α] [One α] [Transc α]
@@ -140,6 +141,49 @@ def rhoVecBatch (am ph : PRBM α n h a) {B' : Nat} (v : Fin n → α) (vps : Fin
 pairs row `i` with `vp`. -/
 def rhoBatchVec (am ph : PRBM α n h a) {B : Nat} (vs : Fin B → Fin n → α) (vp : Fin n → α) : Fin B → CPair α :=
   fun i => rho am ph (vs i) vp
+
+/-! ### the `expand` argument as the OBJECT the caller passed (hardening round 4)
+
+`expand` is documented as `bool`; callers also pass `1` / `0`, `numpy.bool_` values (a flag read from a numpy array, the result
+of a numpy comparison) and 0-dim bool tensors.  `rho` hands the SAME object to `pi`, `gamma(eta=+1)` and `gamma(eta=-1)`; each
+of them tests it on its own (`if expand:` purification_rbm.py:391, `if expand and v.dim() >= 2` density_matrix.py:137-140), so
+the three factors have a common layout only if the three tests agree. -/
+
+/-- layout of a result on `(B, n)` batches: `[i, j]` pairs row `i` of `v` with row `j` of `vp` (`matrix`), `[i]` pairs row `i`
+with row `i` (`paired`), `[i]` = `make_complex(probability(v_i))` (`diag`, the `vp=None` short-cut) -/
+inductive CallForm where
+  | matrix
+  | paired
+  | diag
+  deriving DecidableEq, Repr
+
+/-- `PurificationRBM.gamma(v, vp, eta, expand)` on batches: `if expand:` (purification_rbm.py:391) — truthiness -/
+def gammaForm (expand : PyFlag) : CallForm := if expand.truthy then .matrix else .paired
+
+/-- `DensityMatrix.pi(v, vp, expand)` on batches: `if expand and v.dim() >= 2` (density_matrix.py:137, 140) — truthiness -/
+def piForm (expand : PyFlag) : CallForm := if expand.truthy then .matrix else .paired
+
+/-- layout of `rho(v, vp, expand)` on batches (density_matrix.py:265-274): `if expand is False and vp is None` is an IDENTITY
+test with the singleton `False` (so `expand=0` / `np.False_` with `vp=None` do NOT take the short-cut: `vp = v` and the paired
+form is evaluated); otherwise the common layout of `pi`, `gamma(+1)`, `gamma(-1)`, or `none` when they disagree (torch would
+silently broadcast a vector against a matrix). -/
+def rhoForm (expand : PyFlag) (vpNone : Bool) : Option CallForm :=
+  if expand.isFalseSingleton && vpNone then some .diag
+  else if piForm expand = gammaForm expand then some (piForm expand) else none
+
+/-- value of a `rho` call on two `(B, n)` batches, by layout -/
+inductive RhoOut (α : Type) (B : Nat) where
+  | matrix (m : Fin B → Fin B → CPair α)
+  | vector (p : Fin B → CPair α)
+
+/-- `rho(vs, vps, expand)` with `expand` the object passed and `vps = none` for `vp=None` -/
+def rhoFlagged (am ph : PRBM α n h a) (expand : PyFlag) {B : Nat} (vs : Fin B → Fin n → α)
+    (vps : Option (Fin B → Fin n → α)) : Option (RhoOut α B) :=
+  match rhoForm expand vps.isNone with
+  | some .diag => some (.vector (rhoDiagBatch am vs))
+  | some .matrix => some (.matrix (rhoMatrix am ph vs (vps.getD vs)))
+  | some .paired => some (.vector (rhoPaired am ph vs (vps.getD vs)))
+  | none => none
 
 end Density
 end QV
